@@ -1,4 +1,4 @@
-SPECIFICATION LiveSpec
+SPECIFICATION Spec
 CONSTANTS
   Start = 1
   Last = 4
@@ -6,7 +6,7 @@ CONSTANTS
   Retries = 2
   Content <- MC_Content
   AdvanceOnGiveUp = FALSE
-  FutureAsEmpty = FALSE
+  FutureAsEmpty = TRUE
 INVARIANTS NoSkip AllGenuineEmitted NeverAheadOfDA
-PROPERTIES RetrySame CursorStepsByOne AdvanceOnlyAfterOk EventuallyAll
+PROPERTIES AdvanceOnlyAfterOk
 CHECK_DEADLOCK FALSE
